@@ -865,6 +865,10 @@ def directed() -> list[tuple[Prog, list[tuple[int, int]]]]:
         Assign("x1", C(0)),
         For("i1", C(3), [If(Cmp(">", V("i1"), V("b")), [Break()]), Assign("x1", Bin("+", V("x1"), V("a")))]),
         Assign("z", V("x1")), Ret(V("z"))), inputs=((5, 1), (1, 5), (2, 0)))
+    add("loop-break-after-body", _entry(
+        Assign("x1", C(0)),
+        For("i1", C(1), [Assign("x1", Bin("+", V("x1"), C(3))), If(Cmp(">=", V("a"), V("b")), [Break()])]),
+        Assign("z", V("x1")), Ret(V("z"))), inputs=((3, 0), (0, 3), (2, 2)))
     add("global", _entry(
         Assign("x1", Bin("+", GV(), V("a"))), Assign("x2", C(3)),
         If(Cmp(">", V("a"), V("b")), [GSet(Bin("*", V("x1"), C(2)))], [GAug("+", V("b"))]),
